@@ -29,7 +29,7 @@ class Unit:
     def __init__(self, name, props, tu, roots, target, contracts, harness=None, replace=(), stops=(), unwind=None,
                  defines=(), quick_defines=(), thorough_defines=(), tiers=("quick", "thorough"), replay=None,
                  kind="proof", bound_note="", timeout=None, extra_cbmc=(), loop_contracts=False, trusted=(),
-                 note="", mutants=(), solver=None, object_bits=None, no_canary=False, known=(), spec_target=False, unwindset=(), quick_unwind=None):
+                 note="", mutants=(), solver=None, object_bits=None, no_canary=False, known=(), spec_target=False, unwindset=(), quick_unwind=None, mem_gb=None):
         self.name = name
         self.props = list(props)
         self.tu = tu
@@ -59,6 +59,7 @@ class Unit:
         self.known = list(known)
         self.unwindset = list(unwindset)    # e.g. ['verif_memset.0:66']
         self.quick_unwind = quick_unwind
+        self.mem_gb = mem_gb
         self.spec_target = spec_target   # target is a lemma defined in the contracts header, not a lowered function
 
 
@@ -204,7 +205,7 @@ class Runner:
         else:
             flags += ["--sat-solver", "cadical"]   # measured: 17 s vs 345 s (MiniSat) on encode_offset64
         timeout = unit.timeout or (900 if self.tier == "quick" else 3600)
-        mem = 12 if self.tier == "quick" else 24
+        mem = unit.mem_gb or (12 if self.tier == "quick" else 24)
         cbmc_cmd = ["cbmc", os.path.join(d, "b.gb")] + flags + ["--json-ui"]
         rc, out, err, solve_s = run(cbmc_cmd, timeout=timeout, mem_gb=mem)
         with open(os.path.join(d, "cbmc.json"), "w") as f:
@@ -215,9 +216,13 @@ class Runner:
             raise Undecided("cbmc ran out of memory (%s GB cap) for %s" % (mem, tag))
         props = self._parse_results(out)
         if props is None:
-            raise Undecided("cbmc gave no result list for %s (rc=%s): %s" % (tag, rc, (out[-500:] + err[-300:]).strip()))
+            errs = re.findall(r'"messageText": "([^"]{0,300})",\s*"messageType": "ERROR"', out)
+            raise Undecided("cbmc gave no result list for %s (rc=%s): %s" % (tag, rc, "; ".join(errs) or (out[-300:] + err[-300:]).strip()))
         if "ignoring" in out and "forall" in out:
             raise Undecided("cbmc ignored a quantifier in %s" % tag)
+        odd = [p for p in props if p["status"] not in ("SUCCESS", "FAILURE")]
+        if odd:
+            raise Undecided("cbmc left %d obligations undecided (status %s) in %s - solver resource limit?" % (len(odd), odd[0]["status"], tag))
         canary = [p for p in props if CANARY in p["description"]]
         oblig = [p for p in props if CANARY not in p["description"]]
         unw = [p for p in oblig if p["status"] != "SUCCESS" and "unwinding assertion" in p["description"]]
